@@ -32,6 +32,7 @@ def cases(tier, seed):
                  nw=r.randint(8, 20), nr=r.randint(8, 20), ready_b=r.choice([1.0, 0.6, 0.2]), ready_r=r.choice([1.0, 0.6, 0.2]),
                  long_stall=r.choice([0, 0, 0.02]), gap=r.choice([0, 0, 3, 10]), cmd_ready_prob=r.choice([1.0, 0.7, 0.3]),
                  extra_lat=r.choice([(0, 0), (0, 8), (0, 30)]), stub_long=r.choice([0, 0, 0.01]), seed="C09/%d/%d" % (seed, k))
+        c["aw_native"] = r.choice([12, 12, 25])        # 25: AXI addresses up to 2^30 bytes and beyond
         if c["rmw"] and k % 2 == 0:
             # read-modify-write mode with a master that has one single-beat write in flight at a time (W never ahead of AW,
             # next write only after the B of the previous one): the open RMW finding cannot be involved, any violation is new
@@ -67,7 +68,7 @@ def gen_burst(r, c, nb, hot):
     else:
         kind2 = kind
     nbytes = 1 << size
-    word = r.choice(hot) if r.random() < 0.7 else (r.randrange(0, 1 << 8) if r.random() < 0.5 else r.randrange(0, (1 << 12) - 64))
+    word = r.choice(hot) if r.random() < 0.7 else (r.randrange(0, 1 << 8) if r.random() < 0.5 else r.randrange(0, (1 << c.get("aw_native", 12)) - 64))
     if kind2 == "wrap":
         ln = r.choice([1, 3, 7, 15])
         addr = (word * nb // nbytes) * nbytes          # aligned to the transfer size
@@ -104,7 +105,7 @@ def run_case(c):
     dw = c["dw"]
     nb = dw // 8
     sh = nb.bit_length() - 1
-    aw_native = 12
+    aw_native = c.get("aw_native", 12)
 
     class DUT(Module):
         def __init__(self):
